@@ -19,3 +19,12 @@ CLAIMS["C02"] = (
     "Trusts set.issubset/difference and SimpleQueue FIFO semantics; sorter located by role (callee of _create_cache that raises the circular error). Unknown loop/termination shapes give exit 2, not a violation.",
     "DESIGN.md section 4 C02",
 )
+CLAIMS["C04"] = (
+    "qualifier dataflow (ABS/REL/SHIFT/DUR time typing) over Simulator's entry points by path-enumerating abstract interpretation, plus typestate checks of integrator continuation, result bookkeeping, override restart and reset",
+    "Decides, for every call order and every time value: (T1) no comparison/mask/arithmetic in simulate, simulate_time_course, update_variables or the result handler mixes absolute with integrator-relative time, integrator arguments are relative and stored frames absolute; "
+    "(T2) Scipy's integrate* methods start from the current (t0,y0) and leave it at the last returned row; (T3) frames and parameter records are appended together, failures only to the error list, the boundary row dropped exactly for continuing calls; "
+    "(T4) override restart = last row | overrides at the last absolute time, integrator re-initialised after; (T5) clear_results resets the whole result group; (T6) refusal iff requested end <= reached. "
+    "These are the bookkeeping clauses of the property (increasing absolute axis, correct continuation point, exact refusal); trajectories and solver output points are not decided.",
+    "Trusts the declared qualifier sources (public times absolute, TimeCourse.time relative) and the conversion idiom; sibling back ends Diffrax/Assimulo are reported as INFO only (optional dependencies not installed, unconfirmed).",
+    "DESIGN.md section 4 C04, Appendix A.2",
+)
